@@ -1,7 +1,7 @@
-Require Import PPLV.Base.Sys PPLV.PIP.PipSpec PPLV.PIP.PipTree PPLV.PIP.PipRef.
+Require Import PPLV.Base.Sys PPLV.PIP.PipSpec PPLV.PIP.PipTree PPLV.PIP.PipRef PPLV.PIP.PipCert.
 Require Extraction.
 Require Import ExtrOcamlBasic.
 Extraction Language OCaml.
 Cd "../ocaml/gen".
-Extraction "pip.ml" lexmin_ref res_answer eval_tree wf_treeb contextb ponly proj nonempty_cons.
+Extraction "pip.ml" lexmin_ref res_answer eval_tree wf_treeb contextb ponly proj nonempty_cons tree_cert_b.
 Cd "../../coq".
